@@ -2,6 +2,21 @@
 import itertools, random
 from vlib import core, diff
 
+MANIFEST = dict(
+    engine="E-symtab",
+    technique="Coq proof: representation invariant by induction over all op sequences + refinement to nested case-insensitive maps; tied to the code by exhaustive differential run of the extracted model",
+    text=("Theorems over the Gallina model of SymbolTable (all op sequences, all chain lengths): lookup = latest insertion in "
+          "nearest scope ignoring case, search_all one hit per scope, iteration = insertion order, merged listing = each name "
+          "once/nearest wins/complete/ordered, stored indices in range. The model is tied to /repo by running the extracted "
+          "model and the real SymbolTable on every insertion sequence up to length 5/4/3 (1/2/3 scopes) over 3 names x 2 "
+          "casings followed by every query, plus random sequences; an independent oracle re-states the property on the "
+          "implementation's own output."),
+    note="Trusted: Coq kernel, extraction (ExtrOcamlBasic), harness. Assumes ASCII names, acyclic parent chains (cycles: C14), id == info.id at insertion.",
+    design="6 C18",
+    engines=[dict(name="E-symtab", path="harness/src/eng_symtab.rs + coq/extract/eng_symtab.ml",
+                  kind_free_text="differential: real SymbolTable vs extracted Coq model on operation sequences")],
+)
+
 ASSUMPTIONS = [
     "names are ASCII (identifiers are [A-Za-z0-9_] by construction of the lexer); str::to_uppercase is modelled as ASCII upper-casing",
     "insert_symbol_info is called with id == info.id (as every caller in /repo does)",
